@@ -285,4 +285,39 @@ theorem gen_trace_eq (s : State) :
   rw [gen_round_eq s 0 (by decide), gen_round_eq _ 1 (by decide), gen_round_eq _ 2 (by decide),
     gen_round_eq _ 3 (by decide), gen_round_eq _ 4 (by decide), permutation_unfold, trace_unfold]
   exact ⟨rfl, rfl⟩
+/-! ### `Tip5::new`, `hash_10` -/
+
+/-- **`Tip5::new(domain)`** regenerated from source (the `match` on `Domain`, the `while` loop over the capacity) gives
+    the hand model's start states -/
+theorem gen_new_eq :
+    Loops.tip5_new 0 = some varlenState.toList ∧
+    Loops.tip5_new 1 = some (List.replicate 10 zero ++ List.replicate 6 one) := by decide +kernel
+
+theorem vec10_toList {α : Type} (x : Vector α 10) :
+    x.toList = [x[0], x[1], x[2], x[3], x[4], x[5], x[6], x[7], x[8], x[9]] := by
+  apply List.ext_getElem
+  · simp
+  · intro i h1 h2
+    have h3 : i < 10 := by simpa using h1
+    interval_cases i <;> simp
+
+theorem fixedLengthState_toList (input : Vector Nat 10) :
+    (fixedLengthState input).toList = input.toList ++ List.replicate 6 one := by
+  rw [vec16_toList, vec10_toList]
+  simp [fixedLengthState, Vector.getElem_ofFn, List.replicate]
+
+theorem take5 (t : State) : t.toList.take 5 = (Vector.ofFn fun i : Fin 5 => t[i.val]).toList := by
+  rw [vec16_toList t]
+  rfl
+
+/-- **`Tip5::hash_10`** regenerated from source (`Self::new(FixedLength)`, `copy_from_slice`, `permutation`,
+    `try_into().unwrap()`) = hand model, every input -/
+theorem gen_hash_10_eq (input : Vector Nat 10) :
+    Loops.tip5_hash_10 input.toList = some (hash_10 input).toList := by
+  have hdrop : (List.replicate 10 zero ++ List.replicate 6 one).drop 10 = List.replicate 6 one := by decide +kernel
+  unfold Loops.tip5_hash_10
+  rw [gen_new_eq.2, Option.bind_some]
+  dsimp only
+  rw [hdrop, ← fixedLengthState_toList, gen_permutation_eq, take5]
+  rfl
 end TF.GenBridge.Tip5
